@@ -62,6 +62,15 @@ HARNESSES = [
            "LEN_SYM", "LEN_EXTRA", "SMALL_DIST_SYM", "SMALL_DIST_EXTRA", "LARGE_DIST_SYM", "LARGE_DIST_EXTRA", "BITMASKS"]),
     H("k_lz_literals2_roundtrip", "K-lenDist", ["C01", "C02", "C10"], cost=30, fns=["record_literal", "compress_lz_codes"]),
     H("k_lz_literals4_roundtrip", "K-lenDist", ["C01", "C02", "C10"], cost=30, fns=["record_literal", "compress_lz_codes"]),
+    # ---- K-flushmark ----
+    *[H(n, "K-flushmark", ["C02", "C08", "C09", "C10", "C12"], cost=90, timeout=900,
+        fns=["flush_block", "CallbackOut::new_output_buffer", "OutputBufferOxide::put_bits_no_flush",
+             "OutputBufferOxide::pad_to_bytes", "OutputBufferOxide::save", "OutputBufferOxide::load", "OutputBufferOxide::is_byte_aligned",
+             "HuffmanOxide::start_static_block", "HuffmanOxide::optimize_table(static)", "compress_block", "compress_lz_codes"],
+        strength="F in configuration, flush mode, bit alignment, pending bits, adler, block index; block body empty",
+        note="OutputBufferOxide::put_bits replaced by a small-buffer model (checked equal to the real put_bits by k_put_bits_model_equiv, and the real one proved in Verus V-def-bits); CallbackOxide::flush_output by a recording model (real one: K-flushout); <[u16]>::fill by its std contract model")
+      for n in ("k_flush_block_markers", "k_flush_block_finish_static")],
+    H("k_put_bits_model_equiv", "K-flushmark", ["C02", "C10", "C12"], fns=["OutputBufferOxide::put_bits"], cost=20),
     # ---- K-dispatch ----
     H("k_dispatch", "K-dispatch", ["C01", "C02", "C09", "C10", "C11", "C12", "C14", "C16"],
       fns=["compress", "compress_inner", "flush_output_buffer", "CallbackOxide::new_callback_buf"], cost=60, timeout=900),
